@@ -631,6 +631,7 @@ func runC10(c *fw.Ctx) {
 			}
 		}
 	}
+	c10HugeFileProbe(c)
 	if len(ops) > 0 && c.Model != nil {
 		res.ModelUsed = true
 		got, err := c.Model.Eval(ops)
